@@ -61,4 +61,5 @@ def main(tier):
     chk.run("R-ARRAYSTORAGE", C.arraystorage, cx.repo, floor=12)
     chk.run("R-CONSTWRITE", B.constwrite, cx.repo, floor=5)
     chk.run("R-CXX11CONSTEXPR", C.cxx11constexpr, cx.repo, floor=40)
+    chk.run("R-FIELDREADER", B.fieldreader, cx.repo, floor=6)
     return chk.finish()
